@@ -544,6 +544,7 @@ theorem c03k_mul_np {l : Level} (hl : l.WF) {a b r : Ct} (ha : CtCanon l a) (hb 
     (hna : a.ntt = true) (hnb : b.ntt = true) (hr : ctMultiplyDyadic l a b = .ok r) (sk : Array Int) {m : Nat} (hm : m < l.size) :
     c03k_phNP l sk r m = c03k_phNP l sk a m * c03k_phNP l sk b m := by
   obtain ⟨r', hr', hsz, _, _, _, _, _⟩ := ctMultiplyDyadic_spec (c02v_qsWF_of_levelWF hl) ha hb hna hnb
+    (ctMultiplyDyadic_ok_le16 hr)
   rw [hr] at hr'
   obtain rfl := Except.ok.inj hr'
   have hco := ctMultiplyDyadic_coeff hl ha hb hr
@@ -1295,18 +1296,19 @@ theorem ckks_negate_phase {l : Level} (hl : l.WF) (hq : c07s_LevelQ l) (sk : Arr
   rw [c03k_red_neg, c03k_phase_np hl hq sk (.of_ctCanon hcr (hn.trans hna)) hm, c03k_phase_np hl hq sk (.of_ctCanon ha hna) hm,
     c03k_negate_np hl ha hr sk hm]
 
-/-- K1 MULTIPLY (`ctMultiplyDyadic` = `ckks_multiply`, any sizes n1, n2 in 2..16): the model succeeds, the result has n1 + n2 − 1
-    canonical polynomials (a canonical ciphertext when that is ≤ 16), and its exact phase is the NEGACYCLIC PRODUCT of the exact
-    phases modulo Q: phase(r) ≡ phase(a) ⋆ phase(b).  No noise is added by the tensor product. -/
+/-- K1 MULTIPLY (`ctMultiplyDyadic` = `ckks_multiply`, any sizes n1, n2 in 2..16 with n1 + n2 − 1 ≤ 16 — a larger product is
+    refused by `resize`, in the code and in the model): the model succeeds, the result is a canonical ciphertext of n1 + n2 − 1
+    polynomials, and its exact phase is the NEGACYCLIC PRODUCT of the exact phases modulo Q: phase(r) ≡ phase(a) ⋆ phase(b).
+    No noise is added by the tensor product. -/
 theorem ckks_multiply_phase {l : Level} (hl : l.WF) (hq : c07s_LevelQ l) (sk : Array Int) {a b : Ct} (ha : CtCanon l a)
-    (hb : CtCanon l b) (hna : a.ntt = true) (hnb : b.ntt = true) :
+    (hb : CtCanon l b) (hna : a.ntt = true) (hnb : b.ntt = true) (hsz16 : a.polys.size + b.polys.size - 1 ≤ 16) :
     ∃ r, ctMultiplyDyadic l a b = .ok r ∧ c03k_Canon l r ∧ r.cf = a.cf ∧ r.polys.size = a.polys.size + b.polys.size - 1 ∧
-      (a.polys.size + b.polys.size - 1 ≤ 16 → CtCanon l r) ∧
+      CtCanon l r ∧
       ∀ j, j < l.n → c03k_phase l sk r j ≡ negMulR l.n (c03k_phase l sk a) (c03k_phase l sk b) j [ZMOD (c03k_Q l : Int)] := by
-  obtain ⟨r, hr, hsz, hn, hf, hcan, h16, _⟩ := ctMultiplyDyadic_spec (c02v_qsWF_of_levelWF hl) ha hb hna hnb
+  obtain ⟨r, hr, hsz, hn, hf, hcan, h16, _⟩ := ctMultiplyDyadic_spec (c02v_qsWF_of_levelWF hl) ha hb hna hnb hsz16
   have h2a := ha.two_le; have h2b := hb.two_le
   have hcr : c03k_Canon l r := ⟨hn, by rw [hsz]; omega, fun k hk => hcan k (by rw [← hsz]; exact hk)⟩
-  refine ⟨r, hr, hcr, hf, hsz, h16, ?_⟩
+  refine ⟨r, hr, hcr, hf, hsz, h16 hsz16, ?_⟩
   apply c03k_merge hq
   intro m hm
   rw [c03k_red_mul, c03k_phase_np hl hq sk hcr hm, c03k_phase_np hl hq sk (.of_ctCanon ha hna) hm,
@@ -1622,7 +1624,7 @@ theorem c03k_mul_sound {chain : Nat → Level} {top N : Nat} {sk : Array Int} (h
   obtain ⟨hb, hnb⟩ := c03k_valid_canon h3.2
   have hyc := hy.close
   rw [hlv] at hyc
-  obtain ⟨r', hr', hcr, _, hsz, _, hph⟩ := ckks_multiply_phase hl hq sk ha hb hna hnb
+  obtain ⟨r', hr', hcr, _, hsz, _, hph⟩ := ckks_multiply_phase hl hq sk ha hb hna hnb (ctMultiplyDyadic_ok_le16 hr)
   rw [hr] at hr'
   obtain rfl := Except.ok.inj hr'
   rw [hn] at hph
